@@ -218,6 +218,10 @@ func (a *aggregator) addPart(part, total uint8, data []byte) bool {
 	if a.parts == nil {
 		a.parts = make([][]byte, total)
 	}
+	if int(part) >= len(a.parts) {
+		// the part does not belong to a message of the size announced by the first part.
+		return false
+	}
 	a.parts[int(part)] = append([]byte{}, data...)
 	for i := range a.parts {
 		if a.parts[i] == nil {
